@@ -26,7 +26,7 @@ def native_model(lcf, c):
     t0 = TYPES0[c['t0']]
     a0 = getattr(lcf.ns, t0)(name='srv')
     m.add_asset(a0, asset_id=IDS0[c['i0']])
-    a1 = lcf.ns.O(name='o one')
+    a1 = lcf.ns.O(name='o \U0001F600 one')
     m.add_asset(a1, asset_id=3)
     a2 = lcf.ns.O(name='o2')
     m.add_asset(a2, asset_id=12)
